@@ -91,7 +91,7 @@ package rtsp
 // a stream that ends inside the body is an error, not a message
 //@ func ReadRequest(r *bufio.Reader) (req *Request, err error)
 //@   requires r != nil
-//@   modifies all()
+//@   modifies ghostInt(r, "rpos"), anyElems(req.Header[""])
 //@   ensures err == nil ==> req != nil && req.URL != nil && req.Header != nil
 //@   ensures err == nil ==> len(req.Body) <= bodyLimit()
 //@   ensures err == nil ==> forall(k, 0, len(req.Body), req.Body[k] == ghostBytes(r, "src")[ghostInt(r, "rpos") - len(req.Body) + k])
@@ -99,7 +99,7 @@ package rtsp
 
 //@ func ReadResponse(r *bufio.Reader) (resp *Response, err error)
 //@   requires r != nil
-//@   modifies all()
+//@   modifies ghostInt(r, "rpos"), anyElems(resp.Header[""])
 //@   ensures err == nil ==> resp != nil && resp.Header != nil
 //@   ensures err == nil ==> len(resp.Body) <= bodyLimit()
 //@   ensures err == nil ==> forall(k, 0, len(resp.Body), resp.Body[k] == ghostBytes(r, "src")[ghostInt(r, "rpos") - len(resp.Body) + k])
